@@ -241,22 +241,72 @@ def rewrite_misc(text, rules):
             end = e2 + 1
         rules.hit('R6', 'debug_assert dropped: ' + norm(text[m.start():close + 1])[:80])
         text = text[:m.start()] + text[end:]
-    # R5: BigEndian::write_u16(&mut X[a..b], v) -> be_write_u16_at(&mut X, a, b, v)
+    # R5: BigEndian::write_uN(&mut X[a..b], v) -> be_write_uN_at(&mut X, a, b, v)   (X a Vec<u8>; default)
+    #                                          -> be_write_uN_at_slice(X, a, b, v)   (X a `&mut [u8]`; fn directive `//@ r5 slice`)
     while True:
         code = blank_noncode(text)
-        m = re.search(r'\bBigEndian::write_u16\s*\(\s*&mut\s+([A-Za-z_][A-Za-z0-9_\.]*)\s*\[', code)
+        m = re.search(r'\bBigEndian::write_(u16|u32|u64|u128)\s*\(\s*&mut\s+([A-Za-z_][A-Za-z0-9_\.]*)\s*\[', code)
         if not m:
             break
         br = m.end() - 1
         brc = match_close(code, br)
-        rng = text[br + 1:brc]
-        mm = re.match(r'\s*([^\.]+?)\s*\.\.\s*([^\.]+?)\s*$', rng)
-        if not mm:
-            raise ExtractError('R5: unsupported range %r' % rng)
-        repl = 'be_write_u16_at(&mut %s, %s, %s' % (m.group(1), mm.group(1), mm.group(2))
+        a, b = _split_range(text[br + 1:brc], m.group(2))
+        if R5_SLICE[0]:
+            repl = 'be_write_%s_at_slice(%s, %s, %s' % (m.group(1), m.group(2), a, b)
+        else:
+            repl = 'be_write_%s_at(&mut %s, %s, %s' % (m.group(1), m.group(2), a, b)
         rules.hit('R5')
         text = text[:m.start()] + repl + text[brc + 1:]
+    # R5b/R5c: X[a..b].copy_from_slice(Y) -> slice_copy_at(X, a, b, Y) ; X[a..b].fill(v) -> slice_fill_at(X, a, b, v)
+    while True:
+        code = blank_noncode(text)
+        m = re.search(r'\b([A-Za-z_][A-Za-z0-9_]*)\s*\[', code)
+        found = None
+        for m in re.finditer(r'\b([A-Za-z_][A-Za-z0-9_]*)\s*\[', code):
+            br = m.end() - 1
+            brc = match_close(code, br)
+            mm = re.match(r'\s*\.\s*(copy_from_slice|fill)\s*\(', code[brc + 1:brc + 40])
+            if mm and '..' in code[br + 1:brc]:
+                found = (m, br, brc, mm)
+                break
+        if not found:
+            break
+        m, br, brc, mm = found
+        a, b = _split_range(text[br + 1:brc], m.group(1))
+        fn = 'slice_copy_at' if mm.group(1) == 'copy_from_slice' else 'slice_fill_at'
+        call_open = brc + 1 + mm.end() - 1
+        repl = '%s(%s, %s, %s, ' % (fn, m.group(1), a, b)
+        rules.hit('R5', '%s[..].%s' % (m.group(1), mm.group(1)))
+        text = text[:m.start()] + repl + text[call_open + 1:]
     return text
+
+
+R5_SLICE = [False]
+
+
+def _split_range(rng, base):
+    """'a..b' | 'a..' | '..b' -> (a, b) with defaults 0 / base.len()"""
+    code = blank_noncode(rng)
+    depth = 0
+    pos = None
+    for k in range(len(code) - 1):
+        c = code[k]
+        if c in '([{':
+            depth += 1
+        elif c in ')]}':
+            depth -= 1
+        elif c == '.' and code[k + 1] == '.' and depth == 0:
+            pos = k
+            break
+    if pos is None:
+        raise ExtractError('R5: unsupported range %r' % rng)
+    a = rng[:pos].strip() or '0'
+    b = rng[pos + 2:].strip()
+    if b.startswith('='):
+        raise ExtractError('R5: inclusive range %r' % rng)
+    if not b:
+        b = '%s.len()' % base
+    return a, b
 
 
 def make_fields_pub(text, rules):
@@ -451,6 +501,7 @@ class FnWeave:
         self.rewrites = []  # (old, new)
         self.novacuity = False
         self.opaque = False
+        self.r5slice = False
 
 
 def weave_fn(text, w, rules, vacuity=False, name='?'):
@@ -720,6 +771,8 @@ def build_unit(unit_path, vacuity=False):
                         w.ret = d2[4:].strip()
                     elif d2 == 'novacuity':
                         w.novacuity = True
+                    elif d2 == 'r5 slice':
+                        w.r5slice = True
                     elif d2 == 'body-opaque':
                         # the function is trusted (external_body): its body is not needed and may call helpers that are not extracted
                         w.opaque = True
@@ -746,7 +799,11 @@ def build_unit(unit_path, vacuity=False):
             except ScanError as e:
                 raise ExtractError(str(e))
             raw = src.text[it.start:it.end]
-            txt = transform(raw, rules, 'fn')
+            R5_SLICE[0] = w.r5slice
+            try:
+                txt = transform(raw, rules, 'fn')
+            finally:
+                R5_SLICE[0] = False
             fname = ' :: '.join(path)
             woven = weave_fn(txt, w, rules, vacuity=False, name=fname)
             a, b = emit('// ---- extracted fn: %s :: %s\n' % (f, fname) + woven)
